@@ -127,14 +127,19 @@ def judge_links_frame(ff, g, before, after):
     if len(before['atoms']) != len(after['atoms']):
         bad.append("number of atoms changed during link application")
     link_secs = {sec for l in ff['links'] for sec in l['inters']}
+    import collections
     for sec, rows in before['inters'].items():
         arows = after['inters'].get(sec, [])
+        # every interaction of a block reappears once (several terms on the same atoms are several interactions)
+        have = collections.Counter((tuple(x['atoms']), tuple(x['params'])) for x in arows)
+        per_atoms = collections.Counter(tuple(x['atoms']) for x in arows)
+        need_atoms = collections.Counter(tuple(r['atoms']) for r in rows)
         for r in rows:
-            ver = r['meta'].get('version', 1)
-            same_key = [x for x in arows if x['atoms'] == r['atoms'] and x['meta'].get('version', 1) == ver]
-            if not same_key:
-                bad.append(f"block interaction {sec} {r['atoms']} disappeared during link application")
-            elif same_key[0]['params'] != r['params'] and sec not in link_secs:
+            key = (tuple(r['atoms']), tuple(r['params']))
+            if per_atoms[tuple(r['atoms'])] < need_atoms[tuple(r['atoms'])]:
+                bad.append(f"block interaction {sec} {r['atoms']} {r['params']} disappeared during link application "
+                           f"({need_atoms[tuple(r['atoms'])]} terms on these atoms in the blocks, {per_atoms[tuple(r['atoms'])]} afterwards)")
+            elif have[key] < 1 and sec not in link_secs:
                 bad.append(f"block interaction {sec} {r['atoms']} changed parameters although no link defines {sec}")
     return bad
 
@@ -226,7 +231,8 @@ def mod_cases(ctx):
 def run(ctx):
     ctx.correspondences += ['MapToMolecule.run_molecule vs model/Blocks.v add_blocks (atoms and interactions, exact)',
                             'statement judged on the implementation after MapToMolecule (independent recomputation)',
-                            'frame clauses judged after ApplyLinks and ApplyModifications']
+                            'frame clauses judged after ApplyLinks and ApplyModifications',
+                            'multi-residue (from_itp) blocks with any first residue id, node keys, leading / trailing single-residue blocks: judged from the statement']
     rng = ctx.rng
     cases = []
     for _, c in core.corpus_cases('C01'):
@@ -273,6 +279,84 @@ def run(ctx):
     if mism:
         ctx.broken.append('correspondence:MapToMolecule vs model/Blocks.v')
     mod_cases(ctx)
+    multi_residue_cases(ctx)
+
+
+MULTI_FF = """[ moleculetype ]
+DIM 1
+[ atoms ]
+1 P1 1 RA A 1 0.0 72
+2 P1 1 RA B 2 0.5 36
+3 P2 2 RB C 3 -0.5 45
+[ bonds ]
+A B 1 0.3 1000
+B C 1 0.3 1000
+[ moleculetype ]
+RC 1
+[ atoms ]
+1 C1 1 RC D 1 0.0 72
+[ link ]
+resname "RA|RB"
+[ bonds ]
+C +A 1 0.4 500
+"""
+
+
+def multi_residue_cases(ctx):
+    """residues that stem from a multi-residue block (from_itp): judged from the statement (not modelled)"""
+    import contextlib
+    import io
+    import networkx as nx
+    from polyply import MetaMolecule, MapToMolecule
+    rng = ctx.rng
+    for _ in range(ctx.n(30, 300)):
+        r0 = rng.choice([1, 1, 2, 5, 17])
+        nc = rng.randint(1, 3)
+        tail = rng.random() < 0.4                     # a single-residue block after the copies
+        lead = rng.random() < 0.3                     # ... or before them
+        seq = (['RC'] if lead else []) + ['RA', 'RB'] * nc + (['RC'] if tail else [])
+        keys = rng.sample(range(0, 40), len(seq)) if rng.random() < 0.5 else list(range(len(seq)))
+        g = nx.Graph()
+        for i, k in enumerate(keys):
+            attrs = {'resname': seq[i], 'resid': r0 + i}
+            if seq[i] != 'RC':
+                attrs['from_itp'] = 'DIM'
+            g.add_node(k, **attrs)
+        for i in range(len(keys) - 1):
+            g.add_edge(keys[i], keys[i + 1])
+        vff = ffgen.load_ff(MULTI_FF)
+        meta = MetaMolecule(g, force_field=vff, mol_name='m')
+        rep = {'multi': True, 'r0': r0, 'seq': seq, 'keys': keys}
+        ctx.case(('multi', r0, tuple(seq), tuple(keys)), nontrivial=nc >= 2 or lead or tail, sample=rep)
+        ctx.feature('multi_residue_block')
+        sink = io.StringIO()
+        try:
+            with contextlib.redirect_stderr(sink), contextlib.redirect_stdout(sink):
+                MapToMolecule(vff).run_molecule(meta)
+        except Exception as exc:  # noqa
+            ctx.violation('spec', f"multi-residue block, first residue id {r0}, sequence {seq}: {type(exc).__name__}: {exc}", rep)
+            continue
+        want = []
+        for i, rn in enumerate(seq):
+            for an, at, ch in {'RA': [('A', 'P1', 0.0), ('B', 'P1', 0.5)], 'RB': [('C', 'P2', -0.5)], 'RC': [('D', 'C1', 0.0)]}[rn]:
+                want.append((r0 + i, rn, an, at, ch))
+        mol = meta.molecule
+        got = [(mol.nodes[n]['resid'], mol.nodes[n]['resname'], mol.nodes[n]['atomname'], mol.nodes[n]['atype'], float(mol.nodes[n]['charge']))
+               for n in sorted(mol.nodes)]
+        if got != want:
+            k = next((i for i, (a, b) in enumerate(zip(got, want)) if a != b), min(len(got), len(want)))
+            ctx.violation('spec', f"multi-residue block, first residue id {r0}: atom {k} is {got[k] if k < len(got) else None}, the blocks state "
+                          f"{want[k] if k < len(want) else None} ({len(got)} atoms, {len(want)} expected)", rep)
+            continue
+        for n in meta.nodes:
+            frag = sorted(mol.nodes[a]['atomname'] for a in meta.nodes[n]['graph'].nodes)
+            exp = sorted(an for rid, rn, an, _, _ in want if rid == meta.nodes[n]['resid'])
+            if frag != exp:
+                ctx.violation('spec', f"multi-residue block, first residue id {r0}: residue {meta.nodes[n]['resid']} holds atoms {frag}, its block part has {exp}", rep)
+                break
+        nb = len(mol.interactions.get('bonds', []))
+        if nb != 2 * nc:
+            ctx.violation('spec', f"multi-residue block: {nb} bonds after mapping, the block defines 2 per copy ({nc} copies)", rep)
 
 
 def search(ctx):
@@ -286,6 +370,50 @@ def replay(ctx, data):
         out = ffgen.run_pipeline(MOD_FF, g, mods=[tuple(m) for m in data['mods']])
         print('replay:', out.get('error') or 'ran')
         return 1 if 'error' in out else 0
+    if data.get('multi'):
+        class C:
+            def __init__(self):
+                self.violations, self.rng = [], None
+
+            def violation(self, *a, **k):
+                self.violations.append(a)
+
+            def case(self, *a, **k):
+                pass
+
+            def feature(self, *a, **k):
+                pass
+
+            def n(self, a, b):
+                return 1
+        import random
+        c = C()
+
+        class OneShot(random.Random):
+            pass
+        # re-run the exact sequence
+        import contextlib, io, networkx as nx
+        from polyply import MetaMolecule, MapToMolecule
+        g = nx.Graph()
+        for i, k in enumerate(data['keys']):
+            attrs = {'resname': data['seq'][i], 'resid': data['r0'] + i}
+            if data['seq'][i] != 'RC':
+                attrs['from_itp'] = 'DIM'
+            g.add_node(k, **attrs)
+        for i in range(len(data['keys']) - 1):
+            g.add_edge(data['keys'][i], data['keys'][i + 1])
+        vff = ffgen.load_ff(MULTI_FF)
+        meta = MetaMolecule(g, force_field=vff, mol_name='m')
+        try:
+            with contextlib.redirect_stderr(io.StringIO()), contextlib.redirect_stdout(io.StringIO()):
+                MapToMolecule(vff).run_molecule(meta)
+        except Exception as exc:  # noqa
+            print('replay: mapping fails:', exc)
+            return 1
+        resids = sorted({meta.molecule.nodes[n]['resid'] for n in meta.molecule.nodes})
+        ok = resids == list(range(data['r0'], data['r0'] + len(data['seq']))) and all(len(meta.nodes[n]['graph']) > 0 for n in meta.nodes)
+        print('replay: residue ids', resids, 'ok' if ok else 'statement violated')
+        return 0 if ok else 1
     if 'ff' in data and 'graph' in data:
         out = ffgen.run_pipeline(ffgen.render_ff(data['ff']), data['graph'])
         if 'error' in out:
